@@ -63,6 +63,7 @@ type State struct {
 	Counts  map[string]int64 `json:"counts"`
 	TLogs   int              `json:"tlogs"`
 	PLogs   int              `json:"plogs"`
+	PLogH   []sopx.H         `json:"plog_handles,omitempty"` // handle images held by the priority logs
 	Other   []string         `json:"other,omitempty"`
 }
 
@@ -101,6 +102,11 @@ func CanonState(c *sopx.Canon, raw *sopx.Raw) *State { return canonState(c, raw)
 
 func canonState(c *sopx.Canon, raw *sopx.Raw) *State {
 	s := &State{Counts: map[string]int64{}, TLogs: len(raw.TLogs), PLogs: len(raw.PLogs), Other: raw.Other}
+	for _, x := range raw.PLogged {
+		for _, h := range x.IDs {
+			s.PLogH = append(s.PLogH, c.Handle(x.RegistryTable, h))
+		}
+	}
 	names := make([]string, 0, len(raw.Stores))
 	for n := range raw.Stores {
 		names = append(names, n)
